@@ -41,7 +41,7 @@ EXPECTED_PROBES = ["writer_to_parquet", "writer_pack", "ge_11_partitions", "read
                    "read_glob", "bounds_kw", "geometry_kw", "box_touches_partition_extent",
                    "box_disjoint_from_all", "partition_with_undefined_extent", "pruned_some",
                    "second_generation_over_first", "written_after_partition_bounds_cached",
-                   "rewrite_after_cx",
+                   "rewrite_after_cx", "full_mantissa_coordinates",
                    "end_to_end_cx"]
 
 
@@ -56,6 +56,13 @@ def cases(tier, base_seed):
                                   index_kind="default")
         geo = [c["name"] for c in spec["cols"]]
         loose = rng.random() < 0.12 and gen.loosen_rings(spec, rng)
+        if rng.random() < 0.15:
+            # coordinates with a full double mantissa: recorded extents must still be the
+            # stored rows' extents to the last bit (the geometry oracle is skipped, see below)
+            for c in spec["cols"]:
+                c["values"] = gen.to_noisy(rng, c["values"])
+            loose = True
+            spec["noisy"] = True
         two = rng.random() < 0.4 and n >= 4
         half = n // 2
         writes = []
@@ -168,7 +175,9 @@ def _overlaps(ext, box):
 def _drive(case, root, fs, probes, sig):
     base = os.path.join(root, "sets")
     os.makedirs(base)
-    if case.get("loose_rings"):
+    if case["frame"].get("noisy"):
+        probes["full_mantissa_coordinates"] = 1
+    elif case.get("loose_rings"):
         probes["polygon_ring_outside_first_ring"] = 1
     _generation(case, case["frame"], base, fs, probes, sig, 0)
     if case.get("regen"):
